@@ -1,5 +1,6 @@
-From Coq Require Import Reals Lra.
+From Coq Require Import Reals Lra Psatz.
 From Coquelicot Require Import Coquelicot.
+From EP Require Import lib.Euler.
 Open Scope R_scope.
 
 (* side conditions: non-vanishing / positivity of products of exponentials and hypotheses *)
@@ -7,9 +8,17 @@ Ltac nz :=
   repeat match goal with
   | |- _ /\ _ => split
   | |- True => exact I
+  | H : ?g |- ?g => exact H
   | |- exp _ <> 0 => apply Rgt_not_eq, exp_pos
   | |- 0 < exp _ => apply exp_pos
   | |- exp _ > 0 => apply exp_pos
+  | |- ?a > 0 => apply Rlt_gt
+  | H : 0 < ?y |- 0 < ?x =>
+      solve [ replace x with y by (field; nz); exact H ]
+  | H : 0 < ?y |- ?x <> 0 =>
+      solve [ apply Rgt_not_eq; replace x with y by (field; nz); exact H ]
+  | H : 0 < ?y |- ?x <> 0 =>
+      solve [ replace x with (y * y) by ring; apply Rgt_not_eq, Rmult_lt_0_compat; exact H ]
   | |- ?a * ?b <> 0 => apply Rmult_integral_contrapositive_currified
   | |- / _ <> 0 => apply Rinv_neq_0_compat
   | |- ?a / ?b <> 0 => unfold Rdiv
@@ -20,16 +29,65 @@ Ltac nz :=
   | |- 0 < ?a ^ _ => apply pow_lt
   | |- sqrt _ <> 0 => apply Rgt_not_eq, sqrt_lt_R0
   | |- 0 < sqrt _ => apply sqrt_lt_R0
-  end; try assumption; try lra; auto.
+  end; try assumption; try lra; try nra; auto.
 
 (* derivative of a generated closed form: instantiates the evar with auto_derive's result *)
 Ltac dsolve := unfold Rpower; auto_derive; first [ reflexivity | solve [nz] | nz ].
 
-Ltac fsolve := unfold Rpower; field; nz.
+(* merge syntactically different but ring-equal arguments of ln / exp so that `field` sees one atom *)
+Ltac ln_merge :=
+  repeat match goal with
+  | |- context [ln ?a] =>
+     match goal with
+     | |- context [ln ?b] =>
+        first [ constr_eq a b; fail 1
+              | replace (ln b) with (ln a) by (f_equal; ring) ]
+     end
+  end.
 
-From EP Require Import lib.Euler.
+Ltac exp_merge :=
+  repeat match goal with
+  | |- context [exp ?a] =>
+     match goal with
+     | |- context [exp ?b] =>
+        first [ constr_eq a b; fail 1
+              | replace (exp b) with (exp a) by (f_equal; ring) ]
+     end
+  end.
 
-(* whole-PDE tactic for closed forms without region guards *)
+(* cheap canonicalisation: ring-normalise every argument of ln, then of exp *)
+Ltac inv_norm := repeat match goal with |- context [/ ?a] => progress ring_simplify a end.
+Ltac ln_norm := repeat match goal with |- context [ln ?a] => progress ring_simplify a end.
+Ltac exp_norm := repeat match goal with |- context [exp ?a] => progress ring_simplify a end.
+
+(* multiplicative relations between exponential atoms already present:
+   exp(2a) = (exp a)^2, exp(-a) = /exp a *)
+Ltac exp_rel :=
+  repeat match goal with
+  | |- context [exp ?a] =>
+     match goal with
+     | |- context [exp ?b] =>
+        first [ constr_eq a b; fail 1
+              | replace (exp b) with (exp a * exp a) by (rewrite <- exp_plus; f_equal; ring)
+              | replace (exp b) with (/ exp a) by (rewrite <- exp_Ropp; f_equal; ring) ]
+     end
+  end.
+
+Ltac fsolve :=
+  unfold Rpower; rewrite ?ln_exp;
+  first [ solve [ field; nz ]
+        | solve [ inv_norm; ln_norm; exp_norm; field; nz ]
+        | solve [ ln_merge; exp_merge; field; nz ]
+        | field; nz ].
+Ltac fsolve2 :=
+  unfold Rpower; rewrite ?ln_exp;
+  first [ solve [ inv_norm; ln_norm; exp_norm; exp_rel; field; nz ]
+        | solve [ ln_merge; exp_merge; exp_rel; field; nz ]
+        | ln_norm; exp_norm; exp_rel; field; nz ].
+
+Ltac fsolveA := first [ solve [ fsolve ] | solve [ fsolve2 ] | fsolve ].
+
+(* whole-PDE tactics for closed forms without region guards *)
 Ltac exders :=
   repeat match goal with
   | |- exists _, _ => eexists
@@ -38,6 +96,19 @@ Ltac exders :=
   | |- is_derive _ _ _ /\ _ => split; [ dsolve | ]
   end.
 
+Ltac euler_unfold :=
+  unfold euler_at, euler_heat_at, mass_eq, momentum_eq, energy_eq; autounfold with epgen.
+
 Ltac euler_solve :=
-  unfold euler_at, mass_eq, momentum_eq, energy_eq; autounfold with epgen;
-  repeat match goal with |- _ /\ _ => split end; exders; fsolve.
+  euler_unfold; repeat match goal with |- _ /\ _ => split end; exders; fsolveA.
+
+(* conduction solutions whose temperature is a power law r^p: F is the power-law flux *)
+Ltac heat_solve p :=
+  unfold euler_heat_at; split; [ | split ];
+  [ unfold mass_eq; autounfold with epgen; exders; fsolveA
+  | unfold momentum_eq; autounfold with epgen; exders; fsolveA
+  | match goal with |- exists F, is_heat_flux ?K0 ?al ?be ?rho ?T F ?t /\ _ =>
+      exists (powerlaw_flux K0 al be p rho T); split;
+      [ apply heat_flux_powerlaw; intros; autounfold with epgen; unfold Rpower; auto_derive; [ nz | fsolveA ]
+      | unfold energy_eq, powerlaw_flux; autounfold with epgen; exders; fsolveA ]
+    end ].
